@@ -384,13 +384,10 @@ theorem columnSurface_line (T : TGrid) (g : Geo) (mp : BlockMap) (maxVol : Rat) 
     (hv : top.volume > 0) :
     columnSurface T g mp maxVol col =
       .ok (some (surfaceFormula c.z (top.volume / col.area)
-        (match (lineSizes none bb steps).getLast? with
-         | some t => t
-         | none => top.volume / col.area))) := by
+        (lastOr (lineSizes none bb steps) (top.volume / col.area)))) := by
   unfold columnSurface
   have hne : (lineBlocks bb steps).isEmpty = false := by simp [lineBlocks]
   simp only [hbl, hgn, hmp, hfb, track_line T 3 (some maxVol) bb steps hlen hok hline, hne, List.contains_nil,
     List.filter_false, removeLoop, htop, hc, hv, if_true, Bool.false_eq_true, if_false]
-  cases (lineSizes none bb steps).getLast? <;> rfl
 
 end Proofs.RectGeo
